@@ -222,7 +222,7 @@ func (p *Prog) loadContractFile(path string) error {
 			p.ghostFunDecls = append(p.ghostFunDecls, ghostFunDecl{m[1], ats, m[3]})
 			continue
 		}
-		if strings.HasPrefix(line, "axiom ") {
+		if strings.HasPrefix(line, "axiom ") || strings.HasPrefix(line, "axiom[") {
 			m := regexp.MustCompile(`^axiom\[(\w+)\]\s+(.*)$`).FindStringSubmatch(line)
 			if m == nil {
 				return fmt.Errorf("%s:%d: bad axiom (axiom[ghostfun] expr)", path, lineNo)
